@@ -98,6 +98,9 @@ func lexRun(input string) run {
 	if lr.Timeout { // re-run once before it counts
 		lr = gram.Lex(input, c, watchdog)
 	}
+	if lr.Timeout {
+		timeouts++
+	}
 	r := run{In: bytesOf(input), Cap: c, Toks: make([]tok, 0, len(lr.Toks)), Closed: lr.Closed, Timeout: lr.Timeout, Text: input}
 	for _, t := range lr.Toks {
 		r.Toks = append(r.Toks, tok{K: gram.KindName(t.Type), T: bytesOf(t.Text)})
@@ -105,12 +108,24 @@ func lexRun(input string) run {
 	return r
 }
 
+// finish writes the trace and the statistics; also called early, see emit.
+var finish func()
+
 func emit(ev interface{}) {
 	tw.Emit(ev)
 	if careful {
 		tw.Flush()
 	}
+	if timeouts >= 5 {
+		// five inputs on which the lexer did not terminate (each confirmed by a second attempt): the verdict is
+		// settled, and every further one costs two watchdog periods and may leave a spinning goroutine behind
+		stats["stopped_after_5_timeouts"] = 1
+		finish()
+		os.Exit(0)
+	}
 }
+
+var timeouts int
 
 // ------------------------------------------------------------------------------ exhaustive ----
 
@@ -405,6 +420,7 @@ func main() {
 	var err error
 	tw, err = trace.New(*out)
 	must(err)
+	setFinish(*statsPath)
 	_ = lexer.ItemEOF
 	switch mode {
 	case "exhaustive":
@@ -424,9 +440,20 @@ func main() {
 	default:
 		must(fmt.Errorf("unknown mode %q", mode))
 	}
-	must(tw.Close())
-	if *statsPath != "" {
+	finish()
+}
+
+func init() {
+	finish = func() {}
+}
+
+func setFinish(statsPath string) {
+	finish = func() {
+		must(tw.Close())
+		if statsPath == "" {
+			return
+		}
 		b, _ := json.Marshal(stats)
-		must(os.WriteFile(*statsPath, b, 0o644))
+		must(os.WriteFile(statsPath, b, 0o644))
 	}
 }
